@@ -27,6 +27,33 @@ def write_evidence(prop, ev):
     d = os.path.join(VERIF, 'evidence')
     os.makedirs(d, exist_ok=True)
     p = os.path.join(d, '%s.json' % prop)
+    # The file describes THIS run.  The last run of the other tier (as the file
+    # it replaces recorded it) is carried along under 'previous_runs', labelled
+    # as such, so that a quick run does not erase the record of a thorough one.
+    try:
+        with open(p) as f:
+            old = json.load(f)
+        prev = dict(old.get('previous_runs') or {})
+        oc = old.get('coverage') or {}
+        prev[old.get('tier', '?')] = {
+            'note': 'summary of an earlier run of this check, copied from the evidence file '
+                    'that this run replaced; not measured by this run',
+            'seed': old.get('seed'), 'wall_s': old.get('wall_s'),
+            'violations': old.get('violations'),
+            'runs': oc.get('runs'), 'runs_ok': oc.get('runs_ok'),
+            'runs_error': oc.get('runs_error'),
+            'evaluations': oc.get('evaluations'),
+            'distinct_traces': oc.get('distinct_traces'),
+            'distinct_nontrivial': oc.get('distinct_nontrivial'),
+            'faults_fired': oc.get('faults_fired'),
+            'known_findings_matched': oc.get('known_findings_matched'),
+            'determinism_selfcheck': oc.get('determinism_selfcheck'),
+            'workers': oc.get('workers'), 'hash_seeds': oc.get('hash_seeds')}
+        prev.pop(ev.get('tier'), None)
+        if prev:
+            ev['previous_runs'] = prev
+    except Exception:
+        pass
     tmp = p + '.tmp'
     with open(tmp, 'w') as f:
         json.dump(ev, f, indent=1, sort_keys=True)
